@@ -29,9 +29,13 @@ int   gv_exc;
 Index gv_k0;    /* ghost row index (forall-introduction in postconditions)              */
 Index gv_k1;    /* second ghost row index (monotonicity of non-adjacent row pointers)   */
 long  gv_e0;    /* ghost element index inside a row / inside env_                       */
+Index gv_n;     /* set(bands): number of rows handed in */
+long  gv_m;     /* set(bands): number of envelope elements handed in */
+long *gv_cum;   /* set(bands): ghost prefix sums of the band widths, gv_cum[0..gv_n] */
 long  gv_o0, gv_l0;   /* names for the offset (in elements) and the length of ghost row gv_k0  */
 #define FSZ ((long)sizeof(Float))
 #define PSZ ((long)sizeof(Float *))
+#define ISZ ((long)sizeof(Index))
 #define MAXDIM 1000000
 #define MAXENV 100000000L
 #define FEQ(a, b) ((a) == (b) || ((a) != (a) && (b) != (b)))   /* copied value: NaN stays NaN */
@@ -69,6 +73,10 @@ static Float *gv_null_profile(void) { Float *p = malloc(0); __CPROVER_assume(p !
 #define WF_MONO(E, r, s) ((r) <= (s) ==> OFF((E)->xenv_[r]) <= OFF((E)->xenv_[s]))
 #define WF_ALL0(E) ((E)->dim_ == 0 || (WF_SHAPE(E) && WF_ENDS(E)))
 
+/* band widths handed to set(): band(r) = bend[r-1] in [0, r-1], gv_cum its prefix sums (non-decreasing, total gv_m) */
+#define CUM_AX(bend, r) (0 <= (bend)[(r)-1] && (bend)[(r)-1] <= (r)-1 && 0 <= gv_cum[(r)-1] &&              \
+                         gv_cum[r] == gv_cum[(r)-1] + (bend)[(r)-1] && gv_cum[r] <= gv_m)
+
 /* the closed form that inverse() and copy() establish: row pointer r of S is row pointer r of C moved into S->env_ */
 #define SHIFT(S, C, r) (SAME((S)->xenv_[r], (S)->env_) && OFF((S)->xenv_[r]) == OFF((C)->xenv_[r]))   /* C->xenv_[1] has offset 0: WF_ENDS(C) */
 /* the same facts over row pointers that a ghost block has loaded once (fewer array reads for the solver) */
@@ -82,6 +90,51 @@ static Float *gv_null_profile(void) { Float *p = malloc(0); __CPROVER_assume(p !
    speaks about is not assigned in between: it is in no later assigns clause) */
 #define GV_INST_EST(range, fact) do { __CPROVER_assert(range, "instantiation index in range: " #range); \
                                       __CPROVER_assume(fact); } while (0)
+
+/* Proof splitting.  dfcc (CBMC 6.11) instantiates every loop body twice (base case and step case), so the innermost bodies of
+   inverse()'s depth-3 nest appear 8 times and the whole function does not fit into one SAT instance (> 24 GB).  The proof of
+   Envelope_inverse is therefore split over two checks that use the SAME contract and the SAME loop contracts:
+     GV_PART=1 (check inverse_a): everything except the BODY of loop 5 (which contains loop 6);
+     GV_PART=2 (check inverse_b): everything except the BODIES of loops 3 and 4.
+   GV_CUT ends the paths that enter a body which the other check verifies; the loop itself is still passed through its
+   contract (havoc, assume invariant, exit condition), exactly as it is when its body has been verified.  Every loop body is
+   verified in at least one check (loop 1 and the body of loop 2 in both); GV_BODY is a reachability canary for each body
+   that a check does verify. */
+#ifndef GV_PART
+#define GV_PART 0
+#endif
+#define GV_CUT(part, tag) do { if (GV_PART == (part)) __CPROVER_assume(0); else GV_CANARY(tag); } while (0)
+
+
+/* ---- models of the callee accessors used by set(sparse matrix, graph, ordering) ----------------------------------
+   SparseMatrix::columns/rows/begin/end/ibegin, SparseMatrixGraph::nodes/begin/end (const_iterator is `const Index*`,
+   begin(i) = adjncy + xadj(i)), SparseMatrixOrdering::perm/invp (1-based IntegerList).  They are one-line accessors
+   of the real classes (verified as such in units/smatrix and units/smatrix_ordering); here they are inlined models
+   over plain structs, listed under trusted_base. */
+struct GvSM    { Index rows_, cols_; Float *nonz; Index *cind; Index *rptr; long gv_nnz; };
+struct GvGraph { Index nodes_; const Index *adjncy; const Index *xadj; long gv_nadj; };
+struct GvOrd   { Index n; const Index *perm; const Index *invp; };
+typedef const Index *const_iterator;
+static Index SM_columns(const struct GvSM *sm) { return sm->cols_; }
+static Index SM_rows(const struct GvSM *sm) { return sm->rows_; }
+static Float *SM_begin(const struct GvSM *sm, Index r) { return sm->nonz + sm->rptr[r]; }
+static Float *SM_end(const struct GvSM *sm, Index r) { return sm->nonz + sm->rptr[r + 1]; }
+static Index *SM_ibegin(const struct GvSM *sm, Index r) { return sm->cind + sm->rptr[r]; }
+static Index G_nodes(const struct GvGraph *g) { return g->nodes_; }
+static const Index *G_begin(const struct GvGraph *g, Index i) { return g->adjncy + g->xadj[i]; }
+static const Index *G_end(const struct GvGraph *g, Index i) { return g->adjncy + g->xadj[i + 1]; }
+static Index O_perm(const struct GvOrd *o, Index k) { return o->perm[k]; }
+static Index O_invp(const struct GvOrd *o, Index k) { return o->invp[k]; }
+/* structure facts of the three inputs, ghost-index form */
+#define MAXSD 10000      /* set(sparse): dimension bound under which the int sum env_size provably stays <= MAXENV */
+#define G_ROW(g, i) (0 <= (g)->xadj[i] && (g)->xadj[i] <= (g)->xadj[(i) + 1] && (g)->xadj[(i) + 1] <= (g)->gv_nadj)   /* 1 <= i <= nodes */
+#define G_ENT(g, p) (1 <= (g)->adjncy[p] && (g)->adjncy[p] <= (g)->nodes_)                                         /* 0 <= p < nadj   */
+#define O_PERM(o, k) (1 <= (o)->perm[k] && (o)->perm[k] <= (o)->n)                                                  /* 1 <= k <= n     */
+#define O_INVP(o, k) (1 <= (o)->invp[k] && (o)->invp[k] <= (o)->n)                                                  /* 1 <= k <= n     */
+/* gv_cum[r] is the prefix sum of the band widths r' - min_neighbour[r'] (bounds first: the products/sums below cannot overflow) */
+#define CUMDEF(r, total) (1 <= gv_mn[r] && gv_mn[r] <= (r) && 0 <= gv_cum[(r)-1] && gv_cum[(r)-1] <= gv_cum[r] && gv_cum[r] <= (total) && \
+                          gv_cum[r] == gv_cum[(r)-1] + ((r) - gv_mn[r]))
+Index *gv_mn;     /* ghost alias of the local array min_neighbour (set right after its allocation) */
 
 struct Envelope;
 void Envelope_copy(struct Envelope *self, const struct Envelope *envelope);
@@ -210,7 +263,9 @@ __CPROVER_requires((self->diag_ == NULL || __CPROVER_is_freeable(self->diag_)) &
 __CPROVER_requires(chol->dim_ == 0 || ((self->diag_ == NULL || (!SAME(self->diag_, chol->diag_) && !SAME(self->diag_, chol->env_) && !SAME(self->diag_, chol->xenv_))) &&
                                        (self->env_ == NULL || (!SAME(self->env_, chol->diag_) && !SAME(self->env_, chol->env_) && !SAME(self->env_, chol->xenv_))) &&
                                        (self->xenv_ == NULL || (!SAME(self->xenv_, chol->diag_) && !SAME(self->xenv_, chol->env_) && !SAME(self->xenv_, chol->xenv_)))))
-/* instance of the structure invariant at the ghost row, and the names of its offset and length */
+/* instance of the structure invariant at the ghost row, and the names of its offset and length (the bounds lose nothing:
+   for a row in range they follow from WF_ROW and WF_SHAPE, otherwise the two names are not used) */
+__CPROVER_requires(0 <= gv_o0 && gv_o0 <= MAXENV && 0 <= gv_l0 && gv_l0 <= MAXENV)
 __CPROVER_requires(ROW_IN(chol, gv_k0) ==> (WF_ROW(chol, gv_k0) && OFF(chol->xenv_[gv_k0]) == FSZ * gv_o0 &&
                                             OFF(chol->xenv_[gv_k0 + 1]) == FSZ * (gv_o0 + gv_l0)))
 __CPROVER_assigns(self->dim_, self->defect_, self->diag_, self->env_, self->xenv_, self->gv_env_size)
@@ -248,6 +303,7 @@ __CPROVER_decreases((long)self->dim_ + 1 - i)
 #include "ghost_end.h"
 //@ head Envelope_inverse 1
 #include "ghost_begin.h"
+GV_CANARY("Envelope_inverse loop 1 body");
 const Float *const gv_cb1 = chol->xenv_[i], *const gv_ce1 = chol->xenv_[i + 1];
 GV_INST(1 <= i && i <= chol->dim_, ROWP(chol, i, gv_cb1, gv_ce1));
 #include "ghost_end.h"
@@ -269,6 +325,7 @@ __CPROVER_decreases((long)step)
 #include "ghost_end.h"
 //@ head Envelope_inverse 2
 #include "ghost_begin.h"
+GV_CANARY("Envelope_inverse loop 2 body");
 const Float *const gv_cb = chol->xenv_[step], *const gv_ce = chol->xenv_[step + 1];
 GV_INST(1 <= step && step <= chol->dim_, ROWP(chol, step, gv_cb, gv_ce));
 GV_INST_EST(1 <= step && step <= self->dim_, SHIFTP(self, self->xenv_[step], gv_cb) && SHIFTP(self, self->xenv_[step + 1], gv_ce));
@@ -293,6 +350,7 @@ __CPROVER_decreases(OFF(e) - OFF(b))
 #include "ghost_end.h"
 //@ head Envelope_inverse 3
 #include "ghost_begin.h"
+GV_CUT(2, "Envelope_inverse loop 3 body");
 GV_ANCHOR(b, e - (e - b));
 #include "ghost_end.h"
 //@ loop Envelope_inverse 4
@@ -303,6 +361,7 @@ __CPROVER_decreases((long)self->dim_ + 1 - k)
 #include "ghost_end.h"
 //@ head Envelope_inverse 4
 #include "ghost_begin.h"
+GV_CUT(2, "Envelope_inverse loop 4 body");
 const Float *const gv_cb4 = chol->xenv_[k], *const gv_ce4 = chol->xenv_[k + 1];
 GV_INST(1 <= k && k <= chol->dim_, ROWP(chol, k, gv_cb4, gv_ce4));
 GV_INST_EST(1 <= k && k <= self->dim_, SHIFTP(self, self->xenv_[k], gv_cb4) && SHIFTP(self, self->xenv_[k + 1], gv_ce4));
@@ -330,6 +389,7 @@ __CPROVER_decreases((long)i)
 #include "ghost_end.h"
 //@ head Envelope_inverse 5
 #include "ghost_begin.h"
+GV_CUT(1, "Envelope_inverse loop 5 body");
 GV_ANCHOR(e, gv_env + gv_re - (step - 1 - i));
 #include "ghost_end.h"
 //@ loop Envelope_inverse 6
@@ -340,6 +400,7 @@ __CPROVER_decreases((long)self->dim_ + 1 - k)
 #include "ghost_end.h"
 //@ head Envelope_inverse 6
 #include "ghost_begin.h"
+GV_CANARY("Envelope_inverse loop 6 body");
 const Float *const gv_cb6 = chol->xenv_[k], *const gv_ce6 = chol->xenv_[k + 1];
 GV_INST(1 <= k && k <= chol->dim_, ROWP(chol, k, gv_cb6, gv_ce6));
 GV_INST_EST(1 <= k && k <= self->dim_, SHIFTP(self, self->xenv_[k], gv_cb6) && SHIFTP(self, self->xenv_[k + 1], gv_ce6));
@@ -352,6 +413,218 @@ GV_ANCHOR(u, chol->env_ + (gv_ce6 - chol->env_) - (k - i));
 if (k == step) { GV_ANCHOR(z, self->diag_ + (step - 1)); }
 else { const long gv_zi = k < step ? gv_re - (step - k) : (gv_ce6 - chol->env_) - (k - step); GV_ANCHOR(z, gv_env + gv_zi); }
 #include "ghost_end.h"
+//@ end
+
+/* ------------------------------------------------------------------------------------------------ */
+/* set(b_diag, e_diag, b_env, e_env, b_bend, e_bend): build an envelope from a diagonal, the concatenated rows and the band
+   widths.  The code checks NOTHING about the band widths (and never reads e_bend): it trusts that
+       0 <= band(r) <= r-1   and   band(1) + ... + band(dim) == e_env - b_env.
+   These are stated as preconditions over the ghost array gv_cum of prefix sums (gv_cum[r] = band(1)+...+band(r)), used at
+   range-checked indices (CUM_AX).  Establishes the structure invariant: row pointer r is env_ + gv_cum[r-1], hence
+   row length == band(r), rows inside env_, tiling exact; all values copied. */
+//@ contract Envelope_set_bands
+__CPROVER_requires(__CPROVER_rw_ok(self, sizeof(struct Envelope)))
+__CPROVER_requires((self->diag_ == NULL || __CPROVER_is_freeable(self->diag_)) &&
+                   (self->env_ == NULL || __CPROVER_is_freeable(self->env_)) &&
+                   (self->xenv_ == NULL || __CPROVER_is_freeable(self->xenv_)))
+/* the ranges handed in */
+__CPROVER_requires(SAME(b_diag, e_diag) && OFF(e_diag) - OFF(b_diag) == FSZ * (long)gv_n && 0 <= gv_n && gv_n <= MAXDIM &&
+                   __CPROVER_r_ok(b_diag, gv_n * sizeof(Float)))
+__CPROVER_requires(SAME(b_env, e_env) && OFF(e_env) - OFF(b_env) == FSZ * gv_m && 0 <= gv_m && gv_m <= MAXENV &&
+                   __CPROVER_r_ok(b_env, gv_m * sizeof(Float)))
+__CPROVER_requires(__CPROVER_r_ok(b_bend, gv_n * sizeof(Index)))
+/* clear() frees the old storage first: the inputs must not live in it */
+__CPROVER_requires((self->diag_ == NULL || (!SAME(self->diag_, b_diag) && !SAME(self->diag_, b_env) && !SAME(self->diag_, b_bend))) &&
+                   (self->env_ == NULL || (!SAME(self->env_, b_diag) && !SAME(self->env_, b_env) && !SAME(self->env_, b_bend))) &&
+                   (self->xenv_ == NULL || (!SAME(self->xenv_, b_diag) && !SAME(self->xenv_, b_env) && !SAME(self->xenv_, b_bend))))
+__CPROVER_requires(!SAME(self, b_diag) && !SAME(self, b_env) && !SAME(self, b_bend))
+/* UNCHECKED BY THE CODE: consistency of the band widths (ghost prefix sums) */
+__CPROVER_requires(__CPROVER_r_ok(gv_cum, ((long)gv_n + 1) * sizeof(long)) && gv_cum[0] == 0 && gv_cum[gv_n] == gv_m)
+__CPROVER_requires((1 <= gv_k0 && gv_k0 <= gv_n) ==> CUM_AX(b_bend, gv_k0))
+__CPROVER_assigns(self->dim_, self->defect_, self->diag_, self->env_, self->xenv_, self->gv_env_size)
+__CPROVER_frees(self->diag_, self->env_, self->xenv_)
+__CPROVER_ensures(self->dim_ == gv_n && self->defect_ == 0)
+__CPROVER_ensures(self->dim_ == 0 ==> (self->diag_ == NULL && self->env_ == NULL && self->xenv_ == NULL))
+__CPROVER_ensures(self->dim_ > 0 ==> (WF_SHAPE(self) && WF_ENDS(self) && self->gv_env_size == gv_m))
+__CPROVER_ensures(self->dim_ > 0 ==> (__CPROVER_is_freeable(self->diag_) && __CPROVER_is_freeable(self->xenv_) && __CPROVER_is_freeable(self->env_)))
+__CPROVER_ensures(ROW_IN(self, gv_k0) ==> (SAME(self->xenv_[gv_k0], self->env_) && OFF(self->xenv_[gv_k0]) == FSZ * gv_cum[gv_k0 - 1] &&
+                                           SAME(self->xenv_[gv_k0 + 1], self->env_) && OFF(self->xenv_[gv_k0 + 1]) == FSZ * gv_cum[gv_k0]))
+__CPROVER_ensures(ROW_IN(self, gv_k0) ==> (WF_ROW(self, gv_k0) && ROWLEN(self, gv_k0) == b_bend[gv_k0 - 1]))
+__CPROVER_ensures(ROW_IN(self, gv_k0) ==> FEQ(self->diag_[gv_k0 - 1], b_diag[gv_k0 - 1]))
+__CPROVER_ensures((self->dim_ > 0 && 0 <= gv_e0 && gv_e0 < gv_m) ==> FEQ(self->env_[gv_e0], b_env[gv_e0]))
+//@ entry Envelope_set_bands
+GV_CANARY("Envelope_set_bands entry");
+#include "ghost_begin.h"
+const Float *const gv_bdiag0 = b_diag;
+const Float *const gv_benv0 = b_env;
+const Index *const gv_bbend0 = b_bend;
+#include "ghost_end.h"
+//@ at Envelope_set_bands gvsize
+#include "ghost_begin.h"
+GV_SET_ENV_SIZE(self, env_size);
+#include "ghost_end.h"
+//@ loop Envelope_set_bands 1
+#include "ghost_begin.h"
+__CPROVER_assigns(i, t, d, b_diag, b_bend, __CPROVER_object_whole(self->diag_), __CPROVER_object_whole(self->xenv_))
+__CPROVER_loop_invariant(1 <= i && i <= self->dim_ + 1 && 0 <= gv_cum[i - 1] && gv_cum[i - 1] <= gv_m && SAME(t, self->env_) && OFF(t) == FSZ * gv_cum[i - 1] &&
+                         SAME(d, self->diag_) && OFF(d) == FSZ * ((long)i - 1) &&
+                         SAME(b_diag, gv_bdiag0) && OFF(b_diag) == OFF(gv_bdiag0) + FSZ * ((long)i - 1) &&
+                         SAME(b_bend, gv_bbend0) && OFF(b_bend) == OFF(gv_bbend0) + ISZ * ((long)i - 1) &&
+                         (1 < i ==> (SAME(self->xenv_[1], self->env_) && OFF(self->xenv_[1]) == 0)) &&
+                         ((1 <= gv_k0 && gv_k0 < i) ==> (0 <= gv_cum[gv_k0 - 1] && gv_cum[gv_k0 - 1] <= gv_m && SAME(self->xenv_[gv_k0], self->env_) && OFF(self->xenv_[gv_k0]) == FSZ * gv_cum[gv_k0 - 1])) &&
+                         ((1 <= gv_k0 && gv_k0 < i - 1) ==> (0 <= gv_cum[gv_k0] && gv_cum[gv_k0] <= gv_m && SAME(self->xenv_[gv_k0 + 1], self->env_) && OFF(self->xenv_[gv_k0 + 1]) == FSZ * gv_cum[gv_k0])) &&
+                         ((1 <= gv_k0 && gv_k0 < i) ==> FEQ(self->diag_[gv_k0 - 1], gv_bdiag0[gv_k0 - 1])))
+__CPROVER_decreases((long)self->dim_ + 1 - i)
+#include "ghost_end.h"
+//@ head Envelope_set_bands 1
+#include "ghost_begin.h"
+GV_ANCHOR(d, self->diag_ + (i - 1));
+GV_ANCHOR(b_diag, gv_bdiag0 + (i - 1));
+GV_ANCHOR(b_bend, gv_bbend0 + (i - 1));
+GV_INST(1 <= i && i <= gv_n, CUM_AX(gv_bbend0, i));
+#include "ghost_end.h"
+//@ loop Envelope_set_bands 2
+#include "ghost_begin.h"
+__CPROVER_assigns(e, b_env, __CPROVER_object_whole(self->env_))
+__CPROVER_loop_invariant(SAME(b_env, gv_benv0) && OFF(gv_benv0) <= OFF(b_env) && OFF(b_env) <= OFF(e_env) &&
+                         ALIGNED(OFF(b_env) - OFF(gv_benv0)) && SAME(e, self->env_) && OFF(e) == OFF(b_env) - OFF(gv_benv0) &&
+                         ((0 <= gv_e0 && gv_e0 < gv_m && FSZ * gv_e0 < OFF(b_env) - OFF(gv_benv0)) ==> FEQ(self->env_[gv_e0], gv_benv0[gv_e0])))
+__CPROVER_decreases(OFF(e_env) - OFF(b_env))
+#include "ghost_end.h"
+//@ head Envelope_set_bands 2
+#include "ghost_begin.h"
+GV_ANCHOR(e, self->env_ + (b_env - gv_benv0));
+GV_ANCHOR(b_env, gv_benv0 + (b_env - gv_benv0));
+#include "ghost_end.h"
+//@ end
+
+/* ------------------------------------------------------------------------------------------------ */
+/* set(sm, graph, ordering): STRUCTURAL FIRST HALF ONLY (check set_sparse_structure).
+   Verified: memory safety and frame of everything up to and including the two zero-fill loops (loops 1-7), and that the
+   profile is well formed: 1 <= min_neighbour[r] <= r (hence band(r) = r - min_neighbour[r] <= r-1), row pointer r is
+   env_ + gv_cum[r-1] with gv_cum the prefix sums of the band widths (ghost array filled in the tail of loop 4), rows tile
+   env_ exactly, total size = sum(i - min_neighbour[i]).
+   NOT verified (GV_CUT in the head of loop 8): the accumulation nest (loops 8-11), i.e. that every update
+   `*element += fa*fb` at end(row) - (row - col) lands inside row `row`.  Its loop contracts below are placeholders.
+   Preconditions the code does not check: graph->nodes() == sm->columns() == ordering size (min_neighbour is indexed by
+   node), adjacency entries and permutation values in [1, n]. */
+//@ contract Envelope_set_sparse
+__CPROVER_requires(__CPROVER_rw_ok(self, sizeof(struct Envelope)))
+__CPROVER_requires((self->diag_ == NULL || __CPROVER_is_freeable(self->diag_)) &&
+                   (self->env_ == NULL || __CPROVER_is_freeable(self->env_)) &&
+                   (self->xenv_ == NULL || __CPROVER_is_freeable(self->xenv_)))
+__CPROVER_requires(__CPROVER_r_ok(sm, sizeof(struct GvSM)) && __CPROVER_r_ok(graph, sizeof(struct GvGraph)) && __CPROVER_r_ok(ordering, sizeof(struct GvOrd)))
+__CPROVER_requires(0 <= sm->cols_ && sm->cols_ <= MAXSD && 0 <= sm->rows_ && sm->rows_ <= MAXDIM)
+__CPROVER_requires(graph->nodes_ == sm->cols_ && ordering->n == sm->cols_)
+__CPROVER_requires(0 <= graph->gv_nadj && graph->gv_nadj <= MAXENV && __CPROVER_r_ok(graph->adjncy, graph->gv_nadj * sizeof(Index)) &&
+                   __CPROVER_r_ok(graph->xadj, ((long)graph->nodes_ + 2) * sizeof(Index)))
+__CPROVER_requires(__CPROVER_r_ok(ordering->perm, ((long)ordering->n + 1) * sizeof(Index)) && __CPROVER_r_ok(ordering->invp, ((long)ordering->n + 1) * sizeof(Index)))
+__CPROVER_requires(__CPROVER_rw_ok(gv_cum, ((long)sm->cols_ + 1) * sizeof(long)))
+__CPROVER_assigns(self->dim_, self->defect_, self->diag_, self->env_, self->xenv_, self->gv_env_size, gv_mn, __CPROVER_object_whole(gv_cum))
+__CPROVER_frees(self->diag_, self->env_, self->xenv_)
+__CPROVER_ensures(self->dim_ == sm->cols_ && self->defect_ == 0)
+__CPROVER_ensures(self->dim_ == 0 ==> (self->diag_ == NULL && self->env_ == NULL && self->xenv_ == NULL))
+__CPROVER_ensures(self->dim_ > 0 ==> (WF_SHAPE(self) && WF_ENDS(self)))
+__CPROVER_ensures(self->dim_ > 0 ==> (__CPROVER_is_freeable(self->diag_) && __CPROVER_is_freeable(self->xenv_) && __CPROVER_is_freeable(self->env_)))
+__CPROVER_ensures(self->dim_ > 0 ==> (gv_cum[0] == 0 && gv_cum[self->dim_] == self->gv_env_size))
+__CPROVER_ensures(ROW_IN(self, gv_k0) ==> (SAME(self->xenv_[gv_k0], self->env_) && OFF(self->xenv_[gv_k0]) == FSZ * gv_cum[gv_k0 - 1] &&
+                                           SAME(self->xenv_[gv_k0 + 1], self->env_) && OFF(self->xenv_[gv_k0 + 1]) == FSZ * gv_cum[gv_k0]))
+__CPROVER_ensures(ROW_IN(self, gv_k0) ==> WF_ROW(self, gv_k0))
+//@ entry Envelope_set_sparse
+GV_CANARY("Envelope_set_sparse entry");
+//@ at Envelope_set_sparse mn
+#include "ghost_begin.h"
+gv_mn = min_neighbour;
+#include "ghost_end.h"
+//@ loop Envelope_set_sparse 1
+__CPROVER_assigns(i, __CPROVER_object_whole(gv_mn))
+__CPROVER_loop_invariant(1 <= i && i <= self->dim_ + 1 && ((1 <= gv_k0 && gv_k0 < i) ==> gv_mn[gv_k0] == gv_k0))
+__CPROVER_decreases((long)self->dim_ + 1 - i)
+//@ loop Envelope_set_sparse 2
+__CPROVER_assigns(node, __CPROVER_object_whole(gv_mn))
+__CPROVER_loop_invariant(1 <= node && node <= self->dim_ + 1 &&
+                         ((1 <= gv_k0 && gv_k0 <= self->dim_) ==> (1 <= gv_mn[gv_k0] && gv_mn[gv_k0] <= gv_k0)))
+__CPROVER_decreases((long)self->dim_ + 1 - node)
+//@ head Envelope_set_sparse 2
+#include "ghost_begin.h"
+GV_INST(1 <= node && node <= ordering->n, O_PERM(ordering, node));
+GV_INST(1 <= ordering->perm[node] && ordering->perm[node] <= graph->nodes_, G_ROW(graph, ordering->perm[node]));
+GV_INST_EST(1 <= node && node <= self->dim_, 1 <= gv_mn[node] && gv_mn[node] <= node);
+#include "ghost_end.h"
+//@ loop Envelope_set_sparse 3
+__CPROVER_assigns(b, __CPROVER_object_whole(gv_mn))
+__CPROVER_loop_invariant(SAME(b, e) && SAME(b, graph->adjncy) && OFF(graph->adjncy) + ISZ * graph->xadj[i] <= OFF(b) && OFF(b) <= OFF(e) &&
+                         ((OFF(e) - OFF(b)) & 3) == 0 && 1 <= gv_mn[node] && gv_mn[node] <= node &&
+                         ((1 <= gv_k0 && gv_k0 <= self->dim_) ==> (1 <= gv_mn[gv_k0] && gv_mn[gv_k0] <= gv_k0)))
+__CPROVER_decreases(OFF(e) - OFF(b))
+//@ head Envelope_set_sparse 3
+#include "ghost_begin.h"
+GV_ANCHOR(b, e - (e - b));
+GV_INST(0 <= b - graph->adjncy && b - graph->adjncy < graph->gv_nadj, G_ENT(graph, b - graph->adjncy));
+GV_INST(1 <= *b && *b <= ordering->n, O_INVP(ordering, *b));
+#include "ghost_end.h"
+//@ pre Envelope_set_sparse 4
+#include "ghost_begin.h"
+/* forall-introduction for the band bounds (gv_mn is in no assigns clause from here to its delete[]) */
+__CPROVER_assert((1 <= gv_k0 && gv_k0 <= self->dim_) ==> (1 <= gv_mn[gv_k0] && gv_mn[gv_k0] <= gv_k0), "established: 1 <= min_neighbour[gv_k0] <= gv_k0");
+gv_cum[0] = 0;
+#include "ghost_end.h"
+//@ loop Envelope_set_sparse 4
+__CPROVER_assigns(i, env_size, __CPROVER_object_whole(gv_cum))
+__CPROVER_loop_invariant(1 <= i && i <= self->dim_ + 1 && 0 <= env_size && env_size <= ((long)i - 1) * (MAXSD - 1) &&
+                         gv_cum[0] == 0 && gv_cum[i - 1] == env_size &&
+                         ((1 <= gv_k0 && gv_k0 < i) ==> CUMDEF(gv_k0, env_size)))
+__CPROVER_decreases((long)self->dim_ + 1 - i)
+//@ head Envelope_set_sparse 4
+#include "ghost_begin.h"
+GV_INST_EST(1 <= i && i <= self->dim_, 1 <= gv_mn[i] && gv_mn[i] <= i);
+#include "ghost_end.h"
+//@ tail Envelope_set_sparse 4
+#include "ghost_begin.h"
+gv_cum[i] = env_size;
+#include "ghost_end.h"
+//@ at Envelope_set_sparse gvsize
+#include "ghost_begin.h"
+__CPROVER_assert((1 <= gv_k0 && gv_k0 <= self->dim_) ==> CUMDEF(gv_k0, env_size),
+                 "established: gv_cum[gv_k0] is the prefix sum of the band widths");
+GV_SET_ENV_SIZE(self, env_size);
+#include "ghost_end.h"
+//@ loop Envelope_set_sparse 5
+__CPROVER_assigns(i, e, __CPROVER_object_whole(self->xenv_))
+__CPROVER_loop_invariant(1 <= i && i <= self->dim_ + 1 && 0 <= gv_cum[i - 1] && gv_cum[i - 1] <= env_size && SAME(e, self->env_) && OFF(e) == FSZ * gv_cum[i - 1] &&
+                         (1 < i ==> (SAME(self->xenv_[1], self->env_) && OFF(self->xenv_[1]) == 0 && SAME(self->xenv_[i], self->env_) && OFF(self->xenv_[i]) == FSZ * gv_cum[i - 1])) &&
+                         ((1 <= gv_k0 && gv_k0 < i) ==> (CUMDEF(gv_k0, env_size) && SAME(self->xenv_[gv_k0], self->env_) && OFF(self->xenv_[gv_k0]) == FSZ * gv_cum[gv_k0 - 1] &&
+                                                         SAME(self->xenv_[gv_k0 + 1], self->env_) && OFF(self->xenv_[gv_k0 + 1]) == FSZ * gv_cum[gv_k0])))
+__CPROVER_decreases((long)self->dim_ + 1 - i)
+//@ head Envelope_set_sparse 5
+#include "ghost_begin.h"
+GV_INST_EST(1 <= i && i <= self->dim_, CUMDEF(i, env_size));
+#include "ghost_end.h"
+//@ loop Envelope_set_sparse 6
+__CPROVER_assigns(i, __CPROVER_object_whole(self->diag_))
+__CPROVER_loop_invariant(0 <= i && i <= self->dim_)
+__CPROVER_decreases((long)self->dim_ - i)
+//@ loop Envelope_set_sparse 7
+__CPROVER_assigns(i, __CPROVER_object_whole(self->env_))
+__CPROVER_loop_invariant(0 <= i && i <= env_size)
+__CPROVER_decreases((long)env_size - i)
+//@ loop Envelope_set_sparse 8
+__CPROVER_assigns(r, __CPROVER_object_whole(self->diag_), __CPROVER_object_whole(self->env_), __CPROVER_object_whole(a), __CPROVER_object_whole(c))
+__CPROVER_loop_invariant(1 <= r && r <= sm->rows_ + 1)
+__CPROVER_decreases((long)sm->rows_ + 1 - r)
+//@ head Envelope_set_sparse 8
+#include "ghost_begin.h"
+__CPROVER_assume(0);   /* GV_CUT: the accumulation nest is NOT verified by this unit (see the block comment) */
+#include "ghost_end.h"
+//@ loop Envelope_set_sparse 9
+__CPROVER_assigns(b, n, count, __CPROVER_object_whole(a), __CPROVER_object_whole(c))
+__CPROVER_loop_invariant(1)
+//@ loop Envelope_set_sparse 10
+__CPROVER_assigns(i, __CPROVER_object_whole(self->diag_), __CPROVER_object_whole(self->env_))
+__CPROVER_loop_invariant(1)
+//@ loop Envelope_set_sparse 11
+__CPROVER_assigns(j, __CPROVER_object_whole(self->env_))
+__CPROVER_loop_invariant(1)
 //@ end
 
 //@ harness
@@ -388,6 +661,49 @@ void h_copy(void)
   GV_CANARY("h_copy end");
 }
 
+void h_set_bands(void)
+{
+  struct Envelope Z;
+  _Bool fresh;
+  if (fresh) { struct Envelope Z0 = GV_ENV_DEFAULT; Z = Z0; }
+  else mk_envelope(&Z, 1);              /* an object that already holds an envelope: clear() frees it */
+  Index n, k0; long m, e0;
+  __CPROVER_assume(0 <= n && n <= MAXDIM && 0 <= m && m <= MAXENV);
+  Float *dg = malloc(n * sizeof(Float)), *ev = malloc(m * sizeof(Float));
+  Index *bw = malloc(n * sizeof(Index));
+  long *cum = malloc(((long)n + 1) * sizeof(long));
+  __CPROVER_assume(dg && ev && bw && cum);
+  gv_n = n; gv_m = m; gv_cum = cum; gv_k0 = k0; gv_e0 = e0;
+  __CPROVER_assume(cum[0] == 0 && cum[n] == m);
+  if (1 <= k0 && k0 <= n) __CPROVER_assume(CUM_AX(bw, k0));
+  gv_exc = 0;
+  Envelope_set_bands(&Z, dg, dg + n, ev, ev + m, bw, bw + n);
+  GV_CANARY("h_set_bands end");
+}
+
+void h_set_sparse(void)
+{
+  struct Envelope Z;
+  _Bool fresh;
+  if (fresh) { struct Envelope Z0 = GV_ENV_DEFAULT; Z = Z0; }
+  else mk_envelope(&Z, 1);
+  struct GvSM S; struct GvGraph G; struct GvOrd O;
+  Index n, rows, k0; long nadj, nnz;
+  __CPROVER_assume(0 <= n && n <= MAXSD && 0 <= rows && rows <= MAXDIM && 0 <= nadj && nadj <= MAXENV && 0 <= nnz && nnz <= MAXENV);
+  S.rows_ = rows; S.cols_ = n; S.gv_nnz = nnz;
+  S.nonz = malloc(nnz * sizeof(Float)); S.cind = malloc(nnz * sizeof(Index)); S.rptr = malloc(((long)rows + 2) * sizeof(Index));
+  G.nodes_ = n; G.gv_nadj = nadj;
+  Index *adj = malloc(nadj * sizeof(Index)), *xadj = malloc(((long)n + 2) * sizeof(Index));
+  Index *perm = malloc(((long)n + 1) * sizeof(Index)), *invp = malloc(((long)n + 1) * sizeof(Index));
+  long *cum = malloc(((long)n + 1) * sizeof(long));
+  __CPROVER_assume(S.nonz && S.cind && S.rptr && adj && xadj && perm && invp && cum);
+  G.adjncy = adj; G.xadj = xadj; O.n = n; O.perm = perm; O.invp = invp;
+  gv_cum = cum; gv_k0 = k0;
+  gv_exc = 0;
+  Envelope_set_sparse(&Z, &S, &G, &O);
+  GV_CANARY("h_set_sparse end");
+}
+
 void h_inverse(void)
 {
   struct Envelope C;
@@ -397,6 +713,7 @@ void h_inverse(void)
   if (fresh) { struct Envelope Z0 = GV_ENV_DEFAULT; Z = Z0; }
   else mk_envelope(&Z, 1);              /* an object that already holds an envelope: clear() frees it */
   Index k0; long e0, o0, l0;
+  __CPROVER_assume(0 <= o0 && o0 <= MAXENV && 0 <= l0 && l0 <= MAXENV);
   gv_k0 = k0; gv_e0 = e0; gv_o0 = o0; gv_l0 = l0;
   if (ROW_IN(&C, gv_k0))                /* instance of the structure invariant at the ghost row; names of its offset/length */
     __CPROVER_assume(WF_ROW(&C, gv_k0) && OFF(C.xenv_[gv_k0]) == FSZ * gv_o0 && OFF(C.xenv_[gv_k0 + 1]) == FSZ * (gv_o0 + gv_l0));
